@@ -29,6 +29,7 @@ def groups(tier):
     return [{'name': 'version-parse', 'fn': parse_group, 'args': {'which': 'Version'}},
             {'name': 'range-parse', 'fn': parse_group, 'args': {'which': 'Range'}},
             {'name': 'number', 'fn': number_group, 'args': {}},
+            {'name': 'number-content', 'fn': number_group, 'args': {'content': True}},
             {'name': 'corpus', 'fn': corpus_group, 'args': {}}]
 
 
@@ -139,19 +140,39 @@ def parse_group(s, which):
     s.unreachable(h, '%s::parse: no overflow / panic in error construction (pointer difference, len-1)' % which, [], [c for _, _, c in pan], decode=dec, replay=replay)
 
 
-def number_group(s):
-    """number::{closure#0}: the bound on components and the two integer error kinds"""
+def number_group(s, content=False):
+    """number::{closure#0}: the bound on components and the two integer error kinds.
+    content=False: the digit slice is a position and str::parse::<u64> an arbitrary Result (any length).
+    content=True: the digit slice has 1..CAP symbolic digits (no leading zero) and str::parse::<u64> is exact over them, so code that reads the digits itself is decided too."""
     h = s.harness(L=1, cap_bs=2)
     e = h.eng
     e.tenv.string_as_slice = True
     e.tenv.cache.clear()
     parsed = {}
+    CAP = 24
+    copied, raw = fresh(STRSLICE, 'copied'), fresh(STRSLICE, 'raw')
+    if content:
+        from ..values import Vc, Sc
+        from ..types import TVec, INTS
+        bs = [z3.BitVec('num.byte%d' % i, 8) for i in range(CAP)]
+        ln = raw.fs[2].t
+        h.wf += [z3.UGE(ln, 1), z3.ULE(ln, CAP), z3.Implies(z3.UGT(ln, 1), bs[0] != ord('0'))] + [AND(z3.UGE(b, ord('0')), z3.ULE(b, ord('9'))) for b in bs]
+        cvec = Vc(TVec(INTS['u8'], CAP), ln, [Sc(b) for b in bs], CAP)
+        e.str_content = lambda sv: cvec
+        W = 96
+        V = z3.BitVecVal(0, W)
+        for i in range(CAP):
+            V = z3.If(z3.UGT(ln, i), V * 10 + z3.ZeroExt(W - 8, bs[i] - ord('0')), V)
+        fits = z3.ULT(V, z3.BitVecVal(2 ** 64, W))
 
     def str_parse(eng, callee, args, dest_ts, st, where):
         wf = []
         v = fresh(eng.ty(dest_ts), 'parse_u64', wf)
         eng.assume(wf)
         h.wf += wf
+        if content:
+            h.wf.append(is_variant(v, 'Ok') == fits)
+            h.wf.append(z3.Implies(fits, payload(v, 'Ok')[0].t == z3.Extract(63, 0, V)))
         parsed['r'] = v
         return v
     e.stubs.append((re.compile(r'^core::str::<impl str>::parse::<u64>$'), str_parse))
@@ -159,7 +180,6 @@ def number_group(s):
     # types of the captures it reads, with every captured &str being the start-of-component slice `copied`
     cands = [b for nm, bl in e.bodies.items() for b in bl if re.search(r'(^|::)number::\{closure#\d+\}$', nm)
              and len(b.args) == 2 and re.match(r"^&(?:'\w+ )?str$", b.locals.get(b.args[1], ''))]
-    copied, raw = fresh(STRSLICE, 'copied'), fresh(STRSLICE, 'raw')
 
     def synth(body, depth=0):
         span = re.search(r'\{closure@([^}]*)\}', body.locals[body.args[0]]).group(1)
@@ -199,6 +219,8 @@ def number_group(s):
               detail='no closure of `number` taking &str: the integer step is not where the check expects it')
         return
     r = h.call(cands[0], synth(cands[0]), raw)
+    if content:
+        return number_content_obligations(s, h, e, r, copied, bs, ln, V, fits, CAP)
     pr = parsed.get('r')
     if pr is None:
         s.add(ob='number: str::parse::<u64> produces the component value', mode='syntactic', solver_s=0.0, kind='prove', verdict='inconclusive',
@@ -238,6 +260,48 @@ def number_group(s):
     s.prove(h, 'number: a value above MAX_SAFE_INTEGER => MaxIntError(value) positioned at the start of the component', [is_variant(pr, 'Ok'), z3.UGT(val, MAXS)],
             AND(is_variant(r, 'Err'), kind_some, is_variant(kind, 'MaxIntError'), payload(kind, 'MaxIntError')[0].t == val, same(ein, copied)), decode=dec, replay=replay)
     s.prove(h, 'number: u64 overflow (str::parse fails) => ParseIntError positioned at the start of the component', [is_variant(pr, 'Err')],
+            AND(is_variant(r, 'Err'), kind_some, is_variant(kind, 'ParseIntError'), same(ein, copied)), decode=dec, replay=replay)
+
+
+def number_content_obligations(s, h, e, r, copied, bs, ln, V, fits, CAP):
+    MAXS = 900719925474099
+    W = V.size()
+    err = payload(r, 'Err')[0]
+    kind = payload(err.fs[err.ty.index('kind')], 'Some')[0]
+    kind_some = is_variant(err.fs[err.ty.index('kind')], 'Some')
+    ein = err.fs[err.ty.index('input')]
+    same = lambda a, b: AND(a.fs[0].t == b.fs[0].t, a.fs[1].t == b.fs[1].t, a.fs[2].t == b.fs[2].t)
+    small = z3.ULE(V, z3.BitVecVal(MAXS, W))
+
+    def dec(m):
+        n = m.eval(ln, model_completion=True).as_long()
+        return {'text': ''.join(chr(m.eval(bs[i], model_completion=True).as_long()) for i in range(min(n, CAP)))}
+
+    def replay(case):
+        t = case['text']
+        prog = [{'id': 'n', 'op': 'version', 'text': '1.2.' + t}]
+
+        def judge(native):
+            x = native.get('n') or {}
+            v = int(t)
+            if x.get('panic'):
+                return 'confirmed', 'Version::parse(%r) panicked: %s' % ('1.2.' + t, x.get('panic'))
+            if v <= MAXS:
+                bad = x.get('ok') is not True or ((x.get('v') or {}).get('patch', v) != v)
+            else:
+                want = 'MaxIntError(%d)' % v if v < 2 ** 64 else 'ParseIntError'
+                bad = x.get('ok') is not False or x.get('offset') != 4 or not str(x.get('kind', '')).startswith(want)
+            return ('confirmed' if bad else 'mismatch'), 'Version::parse(%r): ok=%r offset=%r kind=%s' % ('1.2.' + t, x.get('ok'), x.get('offset'), x.get('kind'))
+        return prog, judge
+    pan = [c for _, _, c in e.sink.panics]
+    s.unreachable(h, 'number: no panic or overflow on any component of up to %d digits' % CAP, [], pan, decode=dec, replay=replay)
+    s.bounds_ok(h, 'number on digit content', [])
+    s.cover(h, 'a component of 20 digits that fits u64', [fits, ln == 20])
+    s.prove(h, 'number (digits): a component up to MAX_SAFE_INTEGER is accepted with its decimal value', [small],
+            AND(is_variant(r, 'Ok'), payload(r, 'Ok')[0].t == z3.Extract(63, 0, V)), decode=dec, replay=replay)
+    s.prove(h, 'number (digits): above MAX_SAFE_INTEGER but below 2^64 => MaxIntError(value) at the start of the component', [NOT(small), fits],
+            AND(is_variant(r, 'Err'), kind_some, is_variant(kind, 'MaxIntError'), payload(kind, 'MaxIntError')[0].t == z3.Extract(63, 0, V), same(ein, copied)), decode=dec, replay=replay)
+    s.prove(h, 'number (digits): 2^64 and above => ParseIntError at the start of the component', [NOT(fits)],
             AND(is_variant(r, 'Err'), kind_some, is_variant(kind, 'ParseIntError'), same(ein, copied)), decode=dec, replay=replay)
 
 
